@@ -49,6 +49,10 @@ def curated_lists():
     L.append([P(PLAIN, TUINT, 4, 4), P(VARYING, TBLOB, 6, 4), P(PLAIN, TUINT, 2, 2), P(VARYING, TBLOB, 1, 16), P(FIXED, TBLOB, 2, 8)])
     L.append([P(PLAIN, TUINT, 4, 4), P(VARYING, TTRK, 12, 8), P(FIXED, TBLOB, 1)])
     L.append([P(PLAIN, TBLOB, 5), P(PLAIN, TBLOB, 2, 2), P(PLAIN, TBLOB, 9, 8)])
+    # trivially destructible but not trivially movable, and the reverse
+    L.append([szt(), P(VARYING, TTRKC, 8, 8), P(PLAIN, TUINT, 4, 4)])
+    L.append([P(FIXED, TTRKC, 12, 4), P(PLAIN, TTRKC, 4, 4)])
+    L.append([P(PLAIN, TTRKC, 4, 4), P(PLAIN, TBLOB, 4, 4), P(FIXED, TTRK, 8, 8)])
     out, seen = [], set()
     for l in L:
         if wf(l) and list_key_(l) not in seen:
@@ -73,7 +77,7 @@ def random_param(rng, kind, count_field=False):
         elif r < 0.72:
             ty, size = rng.choice([TU8, TS8, TBYTE]), 1
         else:
-            ty, size = TTRK, rng.choice([1, 3, 4, 8, 12, 32])
+            ty, size = rng.choice([TTRK, TTRK, TTRKC]), rng.choice([1, 3, 4, 8, 12, 32])
     r = rng.random()
     if r < 0.4:
         al = 1
@@ -104,7 +108,7 @@ def random_list(rng):
     # a non-trivial type in 1/3 of the lists only (they are slower and noisier)
     if rng.random() < 0.6:
         for p in L:
-            if p.ty == TTRK:
+            if p.ty in (TTRK, TTRKC):
                 p.ty = TBLOB
     return L if wf(L) else random_list(rng)
 
@@ -396,7 +400,7 @@ def gen_history(L, K, rng, nsteps, allow_overlap=False):
     return g.finish(), g.stats
 
 
-def gen_fill(L, K, rng, strict_block):
+def gen_fill(L, K, rng, strict_block, via_reserve=False):
     """fill a vector to its documented limits: N elements, B bytes of varying payload
     distributed adversarially; with strict_block=False only the DOCUMENTED preconditions
     are respected (C02)"""
@@ -414,7 +418,26 @@ def gen_fill(L, K, rng, strict_block):
         budget = sum(sum(len(f) * p.size for f, p in zip(t, L) if p.kind == VARYING) for t in plan)
     else:
         plan = [g.rand_tuple(fixed) for _ in range(cap)]
-    g.op_mkvec(0, cap, budget, fixed)
+    if via_reserve:
+        # construct smaller (possibly with some elements), then reserve(n, b) and fill to the
+        # limits that reserve promised
+        c0 = rng.randrange(0, cap)
+        pre = plan[:rng.randrange(0, c0 + 1)]
+        b0 = sum(sum(len(f) * p.size for f, p in zip(t, L) if p.kind == VARYING) for t in pre)
+        g.op_mkvec(0, c0, b0, fixed)
+        v = g.slots[0]
+        for tup in pre:
+            if v.fits(tup, True):
+                v.elems.append(tup)
+                g.lines.append(g.emplace_line(0, tup))
+        plan = plan[len(v.elems):] if len(v.elems) == len(pre) else []
+        sz = esize(L, fixed)
+        v.cap, v.budget = cap, budget
+        v.block = units(L, (needed(cap, budget, sz) if has_varying(L) else budget + sz[1] * cap)) * SA(L)
+        g.lines.append("reserve 0 %d %d" % (cap, budget))
+        g.stat("reserve-grow")
+    else:
+        g.op_mkvec(0, cap, budget, fixed)
     v = g.slots[0]
     for tup in plan:
         if v.fits(tup, strict_block):
@@ -568,4 +591,95 @@ def gen_special(L, K, rng, nsteps):
             g.moved[s] = False
         if rng.random() < 0.08:
             g.lines.append("junk %d" % rng.choice([0, 85, 170, 255]))
+    return g.finish(), g.stats
+
+
+# ---------------------------------------------------------------- empty states (C18)
+def gen_empty(L, K, rng):
+    """vectors that are default-constructed, have capacity 0, never held an element, or were
+    emptied by pop_back / erase / clear; then every operation C18 names, then reserve +
+    emplace_back so that they must behave like any other vector"""
+    g = ScriptGen(L, K, rng)
+    g.lines.append("junk %d" % rng.choice([0, 85, 170, 255]))
+    how = rng.choice(["default", "cap0", "fresh", "popped", "erased", "cleared", "range-erased"])
+    g.stat("empty-by-" + how)
+    if how == "default":
+        g.lines.append("default 0")
+        v = SpecVec(L, 0, 0, [0] * nfixed(L), 0, K)
+        v.null = True
+        v.block = 0
+        g.slots[0] = v
+    elif how == "cap0":
+        g.op_mkvec(0, cap=0, budget=rng.choice([0, 0, 16]) if has_varying(L) else 0)
+    else:
+        g.op_mkvec(0, cap=rng.choice([1, 2, 4]))
+        if how != "fresh":
+            n = 0
+            for _ in range(rng.choice([1, 1, 2, 3])):
+                n += 1 if g.op_emplace(0) else 0
+            if how == "popped":
+                for _ in range(n):
+                    g.op_popback(0)
+            elif how == "erased":
+                for _ in range(n):
+                    v = g.slots[0]
+                    if v.elems and not v.erase_overlaps(0, 1):
+                        del v.elems[0]
+                        g.lines.append("erase 0 0")
+                    elif v.elems:
+                        g.op_popback(0)
+            elif how == "cleared":
+                g.op_clear(0)
+            else:
+                v = g.slots[0]
+                g.lines.append("eraserange 0 0 %d" % len(v.elems))
+                v.elems = []
+    v = g.slots[0]
+    # operations on the empty vector
+    for _ in range(rng.randrange(1, 6)):
+        r = rng.random()
+        if r < 0.2:
+            g.lines.append("clear 0")
+        elif r < 0.4:
+            g.lines.append("eraserange 0 0 0")
+        elif r < 0.55 and g.slots[1] is None:
+            c = v.clone()
+            c.aid = c.aid + 100 if K[4] else c.aid
+            if c.null:
+                c.null = False
+                c.block = 0
+            g.slots[1] = c
+            g.lines.append("copyctor 1 0")
+        elif r < 0.65:
+            g.lines.append("swap 0 0")
+        elif r < 0.75:
+            g.lines.append("reserve 0 0 0")
+        elif r < 0.85:
+            g.lines.append("observe 0")
+        else:
+            g.lines.append("junk %d" % rng.choice([0, 85, 170, 255]))
+    # ... and then it behaves like any other vector
+    for s in (0, 1):
+        v = g.slots[s]
+        if v is None:
+            continue
+        n = rng.choice([1, 2, 3, 5])
+        sz = esize(L, v.fixed)
+        per = sum(p.size for p in L if p.kind == VARYING)
+        b = per * n * rng.choice([0, 1, 3]) if per else 0
+        v.cap, v.budget, v.null = max(v.cap, n) if n > v.cap else v.cap, b if n > v.cap else v.budget, False if n > v.cap else v.null
+        if n > 0:
+            newblock = units(L, (needed(n, b, sz) if has_varying(L) else b + sz[1] * n)) * SA(L)
+            if n >= v.cap:
+                v.block = newblock
+        g.lines.append("reserve %d %d %d" % (s, n, b))
+        if v.null:
+            continue
+        for _ in range(n):
+            g.op_emplace(s)
+        if rng.random() < 0.5:
+            g.op_erase(s)
+        if rng.random() < 0.5:
+            g.op_clear(s)
+            g.op_emplace(s)
     return g.finish(), g.stats
